@@ -6,9 +6,9 @@
   i.e. the monitor never fires.  Together with `TJ.Props.C07.noninterference` (equal leakage traces for inputs that agree on everything public) this is the
   constant-time statement without the restriction to the shapes the check executes, for these entry points and all their callees:
     tinyjambu_{128,192,256}_aead_encrypt / _decrypt, tinyjambu_{128,192,256}_siv_encrypt / _decrypt, tinyjambu_hash, tinyjambu_hmac, tinyjambu_pbkdf2,
-    tinyjambu_prng_init_user / _reseed / _generate / _feed / _set_reseed_limit / _free (user entropy callback).
-  Not covered by a theorem (the check still executes a family of shapes for them): the HKDF functions, the streaming hash/HMAC entry points as API calls,
-  tinyjambu_prng_init with the system source.
+    tinyjambu_prng_init_user / _reseed / _generate / _feed / _set_reseed_limit / _free (user entropy callback), tinyjambu_prng_init, tinyjambu_prng_init_user with a NULL
+    callback and tinyjambu_prng_generate with the system source (`tinyjambu_prng_system`; the OS shim below it is a primitive of the semantics).
+  Not covered by a theorem (the check still executes a family of shapes for them): the HKDF functions, the streaming hash/HMAC entry points as API calls.
   (generated once by a script from the statements of those theorems; checked by Lean like everything else)
 -/
 import TJ.Props.C02Gen
@@ -180,6 +180,16 @@ theorem generate_source_is_model_never_taints (st : St) (bp bd : Nat) (Xp XD : A
   obtain ⟨fuel, st', r, Xp', XD', _, h, _⟩ := generate_source_is_model st bp bd Xp XD baseP based doff n ud p e hcb hs hsh hP ho hpcb hent hD hpd hal hltP hltD hin hsz
   exact ⟨fuel, _, _, _, h⟩
 
+open TJ.Props.C15Gen TJ.Props.C15Gen in
+/-- every shape completes under the secrecy monitor (corollary of `TJ.Props.C15Gen.generate_source_system`) -/
+theorem generate_source_system_never_taints (st : St) (bp bd : Nat) (Xp XD : Array LByte) (baseP based doff n ud : Nat) (g : GS)
+    (hP : st.mem[bp]? = some ⟨Xp, baseP⟩) (ho : PObjV Xp g.V g.C g.rc g.rl) (hpcb : PCb Xp ud sysCb) (hent : st.ent = g.ent)
+    (hD : st.mem[bd]? = some ⟨XD, based⟩) (hpd : bp ≠ bd) (hal : baseP % 8 = 0) (hltP : baseP + Xp.size < ptrBase) (hltD : based + XD.size < ptrBase)
+    (hin : doff + n ≤ XD.size) (hsz : st.mem.size + 7 < 2 ^ 30) :
+    ∃ fuel sig e st', callFun prog fuel idx_tinyjambu_prng_generate false [(mkPtr bp baseP, .pub), (mkPtr bd (based + doff), .pub), (n, .pub)] st = .ok sig e st' := by
+  obtain ⟨fuel, st', Xp', XD', h, _⟩ := generate_source_system st bp bd Xp XD baseP based doff n ud g hP ho hpcb hent hD hpd hal hltP hltD hin hsz
+  exact ⟨fuel, _, _, _, h⟩
+
 open TJ.Props.C15Gen TJ.Props.C17Gen in
 /-- every shape completes under the secrecy monitor (corollary of `TJ.Props.C17Gen.init_user_source_is_model`) -/
 theorem init_user_source_is_model_never_taints (st : St) (bp bi : Nat) (X XI : Array LByte) (baseP basei ioff ud : Nat) (custom : Bytes) (e : Ent) (udb : Bool)
@@ -189,6 +199,25 @@ theorem init_user_source_is_model_never_taints (st : St) (bp bi : Nat) (X XI : A
     ∃ fuel sig e st', callFun prog fuel idx_tinyjambu_prng_init_user true
         [(mkPtr bp baseP, .pub), (userCb, .pub), (ud, .pub), (mkPtr bi (basei + ioff), .pub), (custom.length, .pub)] st = .ok sig e st' := by
   obtain ⟨fuel, st', ret, p', e', X', _, h, _⟩ := init_user_source_is_model st bp bi X XI baseP basei ioff ud custom e udb hs hent hP hXs hal hltP hud hI hd hltI hne hsz
+  exact ⟨fuel, _, _, _, h⟩
+
+open TJ.Props.C15Gen TJ.Props.C17Gen in
+/-- every shape completes under the secrecy monitor (corollary of `TJ.Props.C17Gen.init_source`) -/
+theorem init_source_never_taints (st : St) (bp bi : Nat) (X XI : Array LByte) (baseP basei ioff : Nat) (custom : Bytes)
+    (hP : st.mem[bp]? = some ⟨X, baseP⟩) (hXs : 96 ≤ X.size) (hal : baseP % 8 = 0) (hltP : baseP + X.size < ptrBase)
+    (hI : st.mem[bi]? = some ⟨XI, basei⟩) (hd : BytesV XI ioff custom) (hltI : basei + XI.size < ptrBase) (hne : bi ≠ bp) (hsz : st.mem.size + 5 < 2 ^ 30) :
+    ∃ fuel sig e st', callFun prog fuel idx_tinyjambu_prng_init true [(mkPtr bp baseP, .pub), (mkPtr bi (basei + ioff), .pub), (custom.length, .pub)] st = .ok sig e st' := by
+  obtain ⟨fuel, st', h, _⟩ := init_source st bp bi X XI baseP basei ioff custom hP hXs hal hltP hI hd hltI hne hsz
+  exact ⟨fuel, _, _, _, h⟩
+
+open TJ.Props.C15Gen TJ.Props.C17Gen in
+/-- every shape completes under the secrecy monitor (corollary of `TJ.Props.C17Gen.init_user_null_source`) -/
+theorem init_user_null_source_never_taints (st : St) (bp bi : Nat) (X XI : Array LByte) (baseP basei ioff ud : Nat) (custom : Bytes)
+    (hP : st.mem[bp]? = some ⟨X, baseP⟩) (hXs : 96 ≤ X.size) (hal : baseP % 8 = 0) (hltP : baseP + X.size < ptrBase) (hud : ud < 18446744073709551616)
+    (hI : st.mem[bi]? = some ⟨XI, basei⟩) (hd : BytesV XI ioff custom) (hltI : basei + XI.size < ptrBase) (hne : bi ≠ bp) (hsz : st.mem.size + 5 < 2 ^ 30) :
+    ∃ fuel sig e st', callFun prog fuel idx_tinyjambu_prng_init_user true
+        [(mkPtr bp baseP, .pub), (0, .pub), (ud, .pub), (mkPtr bi (basei + ioff), .pub), (custom.length, .pub)] st = .ok sig e st' := by
+  obtain ⟨fuel, st', h, _⟩ := init_user_null_source st bp bi X XI baseP basei ioff ud custom hP hXs hal hltP hud hI hd hltI hne hsz
   exact ⟨fuel, _, _, _, h⟩
 
 end TJ.Props.C07Gen
